@@ -42,7 +42,7 @@ CHECKS = {
    text='Non-interference: with symbolic permittivity, conductivity, height and boundary the matrix fill (over unknown integrals), loads and right-hand side are the very terms of the ideal-ground model. Limits: the real-ground far-field formula at surface impedance 0 equals the ideal-ground formula for all pulse currents; Medium.impedance satisfies |z|^4 (eps^2 + sigma^2/t^2) = 1 and |z|^2 <= t/sigma for all eps, sigma, f (complex sqrt by its defining equations). Splitting: for ALL cut positions u (a linear boundary also at 0 and at negative x) and all currents a medium split into two with identical constants gives the same field (first/second/third of up to three media, only medium, linear and circular boundary, with and without radials where documented); a further medium with ARBITRARY constants beyond every reflection point is never selected. Each comparison reflection point > boundary forks, one path per assignment of pulses to media; z3 decides per path (LRA). Bounded by catalogue geometries, three directions and three concrete grounds.',
    design='DESIGN.md 3 (C11), 9'),
  'C12': dict(
-   text='Wire end coordinates are solver variables (abstract length, generic position): for every feasible coincidence pattern of the ends of up to 3 (thorough 4) wires with 1..3 segments, with and without ground, count and numbering are compared with the topology formula and the placement of every pulse on its two segments is decided by z3 for all coordinates of the class; the 1/1000 matching tolerance is decided with the exact norm on a two-wire frame.',
+   text='Wire end coordinates are solver variables (abstract length, generic position): for every feasible coincidence pattern of the ends of up to 3 (thorough 4) wires with 1..3 segments, with and without ground, count and numbering are compared with the topology formula and the placement of every pulse on its two segments is decided by z3 for all coordinates of the class; the 1/1000 matching tolerance is decided with the exact norm on two-wire frames (plain, chained, second wire moved into place by translate(), first wire tapered towards the junction end); the job pool has a hard wall budget. One genuine defect (shortest segment of a tapered wire) found and repaired.',
    design='DESIGN.md 3 (C12), 2.4'),
  'C17': dict(
    text='Tags (arbitrary integers or automatic), the per-object address (k,t) and the absolute pulse number are solver variables; on every path (tag order, validity class, addressed row) z3 decides in linear integer arithmetic that sources and loads act on exactly the row of the printed geometry table the user named, that invalid addresses are refused, that all/all,t load each pulse once and that the listings name the pulse; bounded by the listed models. The system matrix receives every attached load exactly once on the diagonal of its pulse with that pulse\'s weight, and a source named as (k,t) produces the excitation vector of the same source named by the absolute number. Command-line layer: the real main() on two --excitation-pulse options (per-object and absolute form, either order) with k, t, a as symbolic option text.',
@@ -72,7 +72,7 @@ CHECKS = {
    technique='bounded symbolic execution of main() on token argument lists (z3 path enumeration, zero-divisor forks) + solver-generated representative per path replayed on the complete real program'),
  'C08': dict(
    text='For all load values, frequencies and (for the system-level clauses) all non-singular system matrices within the stated sizes, '
-        'z3 finds no input for which a load deviates from the series element it describes; bounded by catalogue geometries and matrix size. The load is named by absolute pulse number or as pulse p of the object with tag t (tags with a gap); at matrix level: the load changes the diagonal entry of the feed pulse and no other, also on the second request of the same object with the real matrix fill. Distributed loads (skin effect by conductivity / resistivity, insulation) on a junction of two different wires: the load of a pulse is the sum over its halves of half length x per-length impedance of THAT half\'s wire, for all f, sigma, eps_r, every subset of loaded wires and both evaluation orders (Bessel/log/sqrt uninterpreted).',
+        'z3 finds no input for which a load deviates from the series element it describes; bounded by catalogue geometries and matrix size. The load is named by absolute pulse number or as pulse p of the object with tag t (tags with a gap); at matrix level: the load changes the diagonal entry of the feed pulse and no other, also on the second request of the same object with the real matrix fill. Distributed loads (skin effect by conductivity / resistivity, insulation) on a junction of two different wires and on a grounded wire: the load of a pulse is the sum over its CONDUCTOR halves (the image half of a grounded pulse is none; one genuine defect found there and repaired) of half length x per-length impedance of THAT half\'s wire, for all f, sigma, eps_r, every subset of loaded wires and both evaluation orders (Bessel/log/sqrt uninterpreted).',
    design='DESIGN.md 3 (C08)'),
 }
 
